@@ -6,33 +6,86 @@ package minigo
 import (
 	"fmt"
 	"math/rand"
-	"strings"
 )
 
 // N is an AST node in the JSON tuple form of MiniGo.tla.
 type N = []any
 
-// Func is <<name, params, locals, body>>.
+// Func is one function of a program.  The fields after Body belong to MiniGo
+// version 2; their zero values describe a function of version 1 (int
+// parameters and locals, one int result).
 type Func struct {
 	Name   string
 	Params []string
 	Locals []string
 	Body   []N
+	PT     []string // types of the parameters (nil: all int)
+	LT     []string // types of the locals (nil: all int)
+	RT     []string // result types (nil: one int)
+	Named  []string // names of the named results (also listed in Locals)
+	Vari   bool     // the last parameter is variadic (...int, type tag "sl")
+	Recv   string   // "" | "val" | "ptr": method of the struct type, Params[0] is the receiver
+	Lit    bool     // function literal, rendered where <<"funclit", name>> occurs
 }
+
+// Var is a package-level variable.
+type Var struct{ Name, Type string }
 
 // Program is a list of functions; Funcs[0] is the entry (no parameters).
 type Program struct {
-	Funcs []*Func
-	Tag   string // generator family
+	Funcs   []*Func
+	Globals []Var
+	Tag     string // generator family
+	Desc    string // the family's parameters of this program (for reports)
 }
 
-// JSON returns the tuple form.
+// JSON returns the tuple form (identifies the program; not what TLC reads).
 func (p *Program) JSON() []any {
 	var out []any
 	for _, f := range p.Funcs {
-		out = append(out, []any{f.Name, strs(f.Params), strs(f.Locals), nodes(f.Body)})
+		t := []any{f.Name, strs(f.Params), strs(f.Locals), nodes(f.Body)}
+		if f.PT != nil || f.LT != nil || f.RT != nil || f.Named != nil || f.Vari || f.Recv != "" || f.Lit {
+			t = append(t, strs(f.PT), strs(f.LT), strs(f.RT), strs(f.Named), f.Vari, f.Recv, f.Lit)
+		}
+		out = append(out, t)
+	}
+	if len(p.Globals) > 0 {
+		var gs []any
+		for _, g := range p.Globals {
+			gs = append(gs, []any{g.Name, g.Type})
+		}
+		out = append(out, gs)
 	}
 	return out
+}
+
+func typesOr(ts []string, n int) []any {
+	o := make([]any, n)
+	for i := range o {
+		o[i] = "int"
+		if i < len(ts) && ts[i] != "" {
+			o[i] = ts[i]
+		}
+	}
+	return o
+}
+
+// TLA returns the record form read by spec/MiniGoScen.tla.
+func (p *Program) TLA() map[string]any {
+	fs := []any{}
+	for _, f := range p.Funcs {
+		rt := []any{"int"}
+		if f.RT != nil {
+			rt = strs(f.RT)
+		}
+		fs = append(fs, map[string]any{"name": f.Name, "params": strs(f.Params), "locals": strs(f.Locals), "body": nodes(f.Body),
+			"pt": typesOr(f.PT, len(f.Params)), "lt": typesOr(f.LT, len(f.Locals)), "rt": rt, "named": strs(f.Named), "vari": f.Vari})
+	}
+	gs := []any{}
+	for _, g := range p.Globals {
+		gs = append(gs, []any{g.Name, g.Type})
+	}
+	return map[string]any{"funcs": fs, "globals": gs}
 }
 
 func strs(s []string) []any {
@@ -586,166 +639,6 @@ func LoopFamily() []*Program {
 	return out
 }
 
-// ---------------------------------------------------------------------------
-// rendering
-
-type renderer struct {
-	b   strings.Builder
-	pfx string
-}
-
-func (r *renderer) intE(e []any) string {
-	switch e[0] {
-	case "lit":
-		return fmt.Sprint(e[1])
-	case "var":
-		return e[1].(string)
-	case "add":
-		return "(" + r.intE(e[1].([]any)) + " + " + r.intE(e[2].([]any)) + ")"
-	case "sub":
-		return "(" + r.intE(e[1].([]any)) + " - " + r.intE(e[2].([]any)) + ")"
-	case "mul":
-		return "(" + r.intE(e[1].([]any)) + " * " + r.intE(e[2].([]any)) + ")"
-	case "tr":
-		return fmt.Sprintf("tr(%v, %s)", e[1], r.intE(e[2].([]any)))
-	case "call":
-		var as []string
-		for _, a := range e[2].([]any) {
-			as = append(as, r.intE(a.([]any)))
-		}
-		return fmt.Sprintf("%s%s(%s)", r.pfx, e[1], strings.Join(as, ", "))
-	case "callv":
-		return fmt.Sprintf("%s()", e[1])
-	}
-	panic(fmt.Sprint("intE: ", e[0]))
-}
-
-func (r *renderer) boolE(c []any) string {
-	switch c[0] {
-	case "lt":
-		return "(" + r.intE(c[1].([]any)) + " < " + r.intE(c[2].([]any)) + ")"
-	case "eq":
-		return "(" + r.intE(c[1].([]any)) + " == " + r.intE(c[2].([]any)) + ")"
-	case "in":
-		return "in()"
-	case "not":
-		return "!" + r.boolE(c[1].([]any))
-	case "and":
-		return "(" + r.boolE(c[1].([]any)) + " && " + r.boolE(c[2].([]any)) + ")"
-	case "or":
-		return "(" + r.boolE(c[1].([]any)) + " || " + r.boolE(c[2].([]any)) + ")"
-	case "trb":
-		return fmt.Sprintf("trb(%v, %s)", c[1], r.boolE(c[2].([]any)))
-	}
-	panic(fmt.Sprint("boolE: ", c[0]))
-}
-
-func simple(ss []any, r *renderer) string {
-	// for init/post: a single simple statement
-	if len(ss) == 0 {
-		return ""
-	}
-	s := ss[0].([]any)
-	switch s[0] {
-	case "assign":
-		return fmt.Sprintf("%s = %s", s[1], r.intE(s[2].([]any)))
-	case "inc":
-		return fmt.Sprintf("%s++", s[1])
-	case "addto":
-		return fmt.Sprintf("%s += %s", s[1], r.intE(s[2].([]any)))
-	}
-	panic(fmt.Sprint("simple: ", s[0]))
-}
-
-func (r *renderer) stmts(ss []any, ind string) {
-	for _, x := range ss {
-		r.stmt(x.([]any), ind)
-	}
-}
-
-func (r *renderer) stmt(s []any, ind string) {
-	w := func(f string, a ...any) { fmt.Fprintf(&r.b, ind+f+"\n", a...) }
-	switch s[0] {
-	case "emit":
-		w("println(\"e\", %v, %s)", s[1], r.intE(s[2].([]any)))
-	case "assign":
-		w("%s = %s", s[1], r.intE(s[2].([]any)))
-	case "addto":
-		w("%s += %s", s[1], r.intE(s[2].([]any)))
-	case "inc":
-		w("%s++", s[1])
-	case "swap":
-		w("%s, %s = %s, %s", s[1], s[2], s[2], s[1])
-	case "expr":
-		w("_ = %s", r.intE(s[1].([]any)))
-	case "return":
-		w("return %s", r.intE(s[1].([]any)))
-	case "break", "continue":
-		if s[1] == "" {
-			w("%s", s[0])
-		} else {
-			w("%s %s", s[0], s[1])
-		}
-	case "closure":
-		w("%s := func() int {", s[1])
-		r.stmts(s[2].([]any), ind+"\t")
-		w("\treturn 0")
-		w("}")
-		w("_ = %s", s[1])
-	case "if":
-		w("if %s {", r.boolE(s[1].([]any)))
-		r.stmts(s[2].([]any), ind+"\t")
-		if els := s[3].([]any); len(els) > 0 {
-			w("} else {")
-			r.stmts(els, ind+"\t")
-		}
-		w("}")
-	case "for":
-		if s[1] != "" {
-			w("%s:", s[1])
-		}
-		cond := ""
-		if c := s[3].([]any); len(c) > 0 {
-			cond = r.boolE(c)
-		}
-		w("for %s; %s; %s {", simple(s[2].([]any), r), cond, simple(s[4].([]any), r))
-		r.stmts(s[5].([]any), ind+"\t")
-		w("}")
-	case "switch":
-		if s[4] != "" {
-			w("%s:", s[4])
-		}
-		if s[1].(bool) {
-			w("switch %s {", r.intE(s[2].([]any)))
-		} else {
-			w("switch {")
-		}
-		for _, c := range s[3].([]any) {
-			cl := c.([]any)
-			if cl[0].(bool) {
-				w("default:")
-			} else {
-				var es []string
-				for _, e := range cl[1].([]any) {
-					if s[1].(bool) {
-						es = append(es, r.intE(e.([]any)))
-					} else {
-						es = append(es, r.boolE(e.([]any)))
-					}
-				}
-				w("case %s:", strings.Join(es, ", "))
-			}
-			r.stmts(cl[2].([]any), ind+"\t")
-			if cl[3].(bool) {
-				w("\tfallthrough")
-			}
-		}
-		w("}")
-	default:
-		panic(fmt.Sprint("stmt: ", s[0]))
-	}
-}
-
 // usedLabels collects the labels that are the target of a break/continue (Go rejects unused labels).
 func usedLabels(ss []any, into map[string]bool) {
 	for _, x := range ss {
@@ -760,6 +653,8 @@ func usedLabels(ss []any, into map[string]bool) {
 			usedLabels(s[3].([]any), into)
 		case "for":
 			usedLabels(s[5].([]any), into)
+		case "range":
+			usedLabels(s[7].([]any), into)
 		case "switch":
 			for _, c := range s[3].([]any) {
 				usedLabels(c.([]any)[2].([]any), into)
@@ -782,6 +677,11 @@ func dropUnusedLabels(ss []any, used map[string]bool) {
 				s[1] = ""
 			}
 			dropUnusedLabels(s[5].([]any), used)
+		case "range":
+			if l, _ := s[1].(string); l != "" && !used[l] {
+				s[1] = ""
+			}
+			dropUnusedLabels(s[7].([]any), used)
 		case "switch":
 			if l, _ := s[4].(string); l != "" && !used[l] {
 				s[4] = ""
@@ -802,25 +702,4 @@ func (p *Program) Normalise() {
 		usedLabels(body, used)
 		dropUnusedLabels(body, used)
 	}
-}
-
-// RenderFuncs renders the functions of program number n (names prefixed p<n>_).
-func RenderFuncs(p *Program, n int) string {
-	r := &renderer{pfx: fmt.Sprintf("p%d_", n)}
-	for _, f := range p.Funcs {
-		var ps []string
-		for _, a := range f.Params {
-			ps = append(ps, a+" int")
-		}
-		fmt.Fprintf(&r.b, "func %s%s(%s) int {\n", r.pfx, f.Name, strings.Join(ps, ", "))
-		if len(f.Locals) > 0 {
-			fmt.Fprintf(&r.b, "\tvar %s int\n", strings.Join(f.Locals, ", "))
-			for _, l := range f.Locals {
-				fmt.Fprintf(&r.b, "\t_ = %s\n", l)
-			}
-		}
-		r.stmts(nodes(f.Body), "\t")
-		r.b.WriteString("\treturn 0\n}\n\n")
-	}
-	return r.b.String()
 }
